@@ -162,7 +162,7 @@ def console_family(work, name, insess, cmds, maxcalls, maxatt, kinds, auth=1, in
             "subst": subst}
 
 
-def handshake_family(work, name, family, tier, seed, opts=None, workers=16, metrics=False, race=False):
+def handshake_family(work, name, family, tier, seed, opts=None, workers=16, metrics=False, race=False, isolate=False):
     """GenHandshake scenarios -> replay -> TraceHandshake validation."""
     subst = dict(SEED=seed, FAMILY=family, TIER=tier)
     t0 = time.time()
@@ -183,7 +183,7 @@ def handshake_family(work, name, family, tier, seed, opts=None, workers=16, metr
     if metrics:
         traces, info = replay_sharded_procs(src, work, name)
     else:
-        traces, info = replay(src, work, name, workers=workers, race=race)
+        traces, info = replay(src, work, name, workers=workers, race=race, extra_args=("-isolate",) if isolate else ())
     t2 = time.time()
     tracecfg = os.path.join(work, name + ".tracecfg.json")
     json.dump({"known": known_pairs()}, open(tracecfg, "w"))
@@ -196,7 +196,7 @@ def handshake_family(work, name, family, tier, seed, opts=None, workers=16, metr
             "subst": dict(subst, opts=opts)}
 
 
-def walk_family(work, name, module, cfg_tpl, family, tier, seed, workers=16, opts=None, extra_subst=None, race=False, metrics=False):
+def walk_family(work, name, module, cfg_tpl, family, tier, seed, workers=16, opts=None, extra_subst=None, race=False, metrics=False, isolate=False):
     """Scenarios whose expectation travels in `exp` (TraceWalk.tla)."""
     subst = dict(SEED=seed, FAMILY=family, TIER=tier)
     if extra_subst:
@@ -218,7 +218,7 @@ def walk_family(work, name, module, cfg_tpl, family, tier, seed, workers=16, opt
     if metrics:
         traces, info = replay_sharded_procs(src, work, name)
     else:
-        traces, info = replay(src, work, name, workers=workers, race=race)
+        traces, info = replay(src, work, name, workers=workers, race=race, extra_args=("-isolate",) if isolate else ())
     t2 = time.time()
     tracecfg = os.path.join(work, name + ".tracecfg.json")
     json.dump({"known": known_pairs()}, open(tracecfg, "w"))
